@@ -19,7 +19,7 @@ impl RemoteEntityAccessControl for AccessControlBuiltin {
     domain_id: u16,
     publication_data: &PublicationBuiltinTopicDataSecure,
   ) -> SecurityResult<bool> {
-    let partitions = &[]; // Partitions currently unsupported. TODO: get from publication_data
+    let partitions = &[""]; // The default partition. Partitions currently unsupported. TODO: get from publication_data
     let data_tags = &[]; // Data tagging currently unsupported. TODO: get from publication_data
 
     let PublicationBuiltinTopicDataSecure {
@@ -53,7 +53,7 @@ impl RemoteEntityAccessControl for AccessControlBuiltin {
     domain_id: u16,
     subscription_data: &SubscriptionBuiltinTopicDataSecure,
   ) -> SecurityResult<(bool, bool)> {
-    let partitions = &[]; // Partitions currently unsupported. TODO: get from publication_data
+    let partitions = &[""]; // The default partition. Partitions currently unsupported. TODO: get from publication_data
     let data_tags = &[]; // Data tagging currently unsupported. TODO: get from publication_data
 
     let SubscriptionBuiltinTopicDataSecure {
@@ -119,7 +119,7 @@ impl RemoteEntityAccessControl for AccessControlBuiltin {
     domain_id: u16,
     topic_data: &TopicBuiltinTopicData,
   ) -> SecurityResult<bool> {
-    let partitions = &[]; // Partitions currently unsupported. TODO: get from publication_data
+    let partitions = &[""]; // The default partition. Partitions currently unsupported. TODO: get from publication_data
     let data_tags = &[]; // Data tagging currently unsupported. TODO: get from publication_data
 
     let TopicBuiltinTopicData { name, .. } = topic_data;
